@@ -59,8 +59,9 @@ func (ws *WebSocketConn) Read(buf []byte) (n int, err error) {
 	return
 }
 func (ws *WebSocketConn) Close() error {
-	ws.writeM.Lock()
-	defer ws.writeM.Unlock()
+	// Close must not wait for writeM: a Write held up by a peer that has stopped reading
+	// keeps it, and closing the connection is what releases that Write.
+	// websocket.Conn.Close may be called concurrently with all other methods.
 	return ws.Conn.Close()
 }
 
